@@ -2,6 +2,7 @@ import WS.Model.Close
 import WS.Model.Reader
 import WS.Gen.IntFns
 import WS.Gen.Facts
+import WS.Props.CIRCert.Pass
 import WS.Proofs.Close
 /-
   C06 — Close handshake carries code and reason both ways (sequential / payload part).
@@ -211,5 +212,32 @@ theorem close_frame_reported (inf : Inflate) (cfg : RCfg) (limits : List Int) (s
   have h8 : (f.h.opcode == opClose) = true := by rw [ho]; decide
   rw [runReader]
   simp only [hc, h9, h10, h8, hp, if_true, Bool.false_eq_true, if_false]
+
+/-! ### closed for good (concurrent skeleton, every interleaving) -/
+
+open WS.CIR WS.Gen WS.Props.CIRCert in
+/-- the successful returns of Reader / Read / Write / Writer / Ping are in scope of the closed-check
+analysis, and those of Close / CloseNow of the closing-check analysis. -/
+theorem scopes :
+    ConnCIR.apiDone.all (fun n => !ConnCIR.passExemptClosed.contains n && ConnCIR.prog.at n == .done true) = true ∧
+    ConnCIR.closeDone.all (fun n => !ConnCIR.passExemptClosing.contains n && ConnCIR.prog.at n == .done true) = true := by
+  decide +kernel
+
+open WS.CIR WS.Gen WS.Props.CIRCert in
+/-- **once the connection is closed every further Read, Write, Writer and Ping fails**: a call that
+starts when `closed` is already set never reaches a successful return, in any interleaving with any
+other goroutines (its first blocking step re-checks `closed` after acquiring its lock). -/
+theorem closed_is_final (g : G) (hr : Reach ConnCIR.prog g) (t n : Nat) (hn : g.pcs[t]? = some n)
+    (hb : ∃ fl, g.born[t]? = some fl ∧ fl fCLOSED = true) (hex : ConnCIR.passExemptClosed.contains n = false) :
+    ConnCIR.prog.at n ≠ .done true :=
+  Join.born_after_never_succeeds fCLOSED _ _ _ pass_closed_ok g hr t n hn hb hex
+
+open WS.CIR WS.Gen WS.Props.CIRCert in
+/-- **once a Close or CloseNow has begun, every later Close/CloseNow returns an error** (the code
+returns net.ErrClosed on that path): a call that starts when `closing` is already set loses the cas. -/
+theorem later_close_fails (g : G) (hr : Reach ConnCIR.prog g) (t n : Nat) (hn : g.pcs[t]? = some n)
+    (hb : ∃ fl, g.born[t]? = some fl ∧ fl Specs.fClosing = true) (hex : ConnCIR.passExemptClosing.contains n = false) :
+    ConnCIR.prog.at n ≠ .done true :=
+  Join.born_after_never_succeeds Specs.fClosing _ _ _ pass_closing_ok g hr t n hn hb hex
 
 end WS.Props.C06
